@@ -47,7 +47,7 @@ def isTruncate : Op → Bool
 
 inductive Rec
   | new (f : Nat) | app (f : Nat) (b : Bytes) | ren (f g : Nat) | trunc (f : Nat)
-  | up | disc (f : Nat) | scan
+  | up | disc (f : Nat) | scan | away (f : Nat) | gone (f : Nat)
   | inp (f off : Nat) (pass : Bool) | out (f off seq id : Nat) | ack (f off id : Nat) | com (f off id : Nat)
   | eof (f size : Nat) | idle | stuck | crash | saved (f : Nat) (o : Offsets) | died
   | bad (tok : String)
@@ -65,6 +65,7 @@ structure Obs where
   acked    : List Nat := []
   outLast  : List Nat := []
   saved    : List (Nat × Offsets) := []   -- at the last crash
+  snaps    : List (List (Nat × Offsets)) := []   -- at every crash (head = last)
   hadCrash : Bool := false
   broken   : Bool := false                -- died / stuck / unreadable offsets file
 
@@ -78,8 +79,10 @@ def observe1 (o : Obs) : Rec → Obs
   | .trunc f => { o with content := setContent o.content f (fun _ => []) }
   | .ack _ _ id => { o with acked := id :: o.acked }
   | .out _ _ _ id => { o with outLast := id :: o.outLast }
-  | .crash => { o with outLast := [], saved := [], hadCrash := true }
-  | .saved f p => { o with saved := o.saved ++ [(f, p)] }
+  | .crash => { o with outLast := [], saved := [], hadCrash := true, snaps := [] :: o.snaps }
+  | .saved f p =>
+    { o with saved := o.saved ++ [(f, p)],
+             snaps := match o.snaps with | [] => [[(f, p)]] | sn :: rest => (sn ++ [(f, p)]) :: rest }
   | .died => { o with broken := true }
   | .stuck => { o with broken := true }
   | .bad _ => { o with broken := true }
@@ -91,13 +94,14 @@ def insertSorted (x : Nat × Bytes) : List (Nat × Bytes) → List (Nat × Bytes
   | [] => [x]
   | y :: ys => if x.1 ≤ y.1 then x :: y :: ys else y :: insertSorted x ys
 
-/-- class of a lost line: 0 = its stream is absent from the offsets saved for its file at the last
-    crash and it ends at or before the minimum saved offset (the recorded finding); 1 = anything else -/
+/-- class of a lost line: 0 = at some crash its stream is absent from the offsets saved for its file
+    and it ends at or before the minimum saved offset (the recorded finding); 1 = anything else -/
 def lostClass (o : Obs) (f : Nat) (stream : Stream) (off : Nat) : Nat :=
-  if !o.hadCrash then 1 else
-  match o.saved.find? (·.1 == f) with
-  | none => 1
-  | some (_, p) => if (oget p stream).isNone && p ≠ [] && decide (off ≤ minOff p) then 0 else 1
+  if o.snaps.any (fun sn =>
+      match sn.find? (·.1 == f) with
+      | none => false
+      | some (_, p) => (oget p stream).isNone && p ≠ [] && decide (off ≤ minOff p))
+  then 0 else 1
 
 /-- complete lines that are neither acked (any run) nor handed to the output (last run):
     (id or none for a line that is not in the table, class) -/
